@@ -43,6 +43,7 @@ type machine struct {
 	seeked        bool // SeekTo moved state away from best
 	seekHeight    uint32
 	floor         uint32
+	retained      []uint32
 	everOverflowed bool
 	staleSeek     bool // RollbackTo/RollbackSeekTo happened with no commit since (History.seekHeight not reset)
 
@@ -83,28 +84,50 @@ func (m *machine) entriesAbove(h uint32) int {
 	return n
 }
 
-// updateFloor is called after every commit.  History guarantees to retain
-// capacity-1 distinct heights; states at or below the height just under that
-// window may have been dropped for good (floor never decreases, also not after
-// later rollbacks, because dropped entries do not come back).
-func (m *machine) updateFloor() {
-	var hs []uint32
-	for _, e := range m.commits {
-		if len(hs) == 0 || hs[len(hs)-1] != e.height {
-			hs = append(hs, e.height)
-		}
+// Retention model.  History documents "capacity is the max block changes
+// stored": before a commit is stored, if the stored changes already span
+// >= capacity distinct heights, the changes of the oldest height are dropped.
+// The model mirrors only this bookkeeping (which heights are still stored);
+// the STATE oracle stays independent (vector after every commit).  A target t
+// is within capacity iff every commit above t is still stored, i.e. t >= the
+// greatest dropped height (dropped entries never come back).
+func (m *machine) retainCommit(h uint32) {
+	seen := map[uint32]bool{}
+	for _, x := range m.retained {
+		seen[x] = true
 	}
-	if len(hs) > m.capacity-1 {
-		if f := hs[len(hs)-(m.capacity-1)-1]; f > m.floor {
-			m.floor = f
+	if len(seen) >= m.capacity && len(m.retained) > 0 {
+		first := m.retained[0]
+		k := 0
+		for k < len(m.retained) && m.retained[k] == first {
+			k++
 		}
+		m.retained = m.retained[k:]
+		if first > m.floor {
+			m.floor = first
+		}
+		m.everOverflowed = true
 	}
+	m.retained = append(m.retained, h)
 }
+
+func (m *machine) retainTruncate(target uint32) {
+	k := 0
+	for _, x := range m.retained {
+		if x <= target {
+			m.retained[k] = x
+			k++
+		}
+	}
+	m.retained = m.retained[:k]
+}
+
+func (m *machine) updateFloor() {}
 
 // lowestWithin returns the lowest rollback/seek target that is within capacity.
 func (m *machine) lowestWithin() uint32 {
 	lo := m.floor
-	if !m.everOverflowed && len(m.commits) > 0 && m.commits[0].height > 1 && m.floor == 0 {
+	if !m.everOverflowed && len(m.commits) > 0 && m.commits[0].height > 1 {
 		lo = m.commits[0].height - 1
 	}
 	if lo > m.height {
@@ -248,7 +271,7 @@ func runMachine(t *rapid.T, consecutive bool) *machine {
 			m.pendingShape = nil
 			m.commits = append(m.commits, entry{ht, s})
 			m.height = ht
-			m.updateFloor()
+			m.retainCommit(ht)
 			m.log("commit(%d)", ht)
 			if m.seeked {
 				m.didSeekCommit = true
@@ -284,7 +307,7 @@ func runMachine(t *rapid.T, consecutive bool) *machine {
 			}
 			lo := m.lowestWithin()
 			target := uint32(rapid.IntRange(int(lo), int(m.height)).Draw(t, "target"))
-			within := m.distinctAbove(target) <= m.capacity-1
+			within := target >= m.floor
 			multi := m.entriesAbove(target) > m.distinctAbove(target)
 			overflowed := len(m.commits) > m.capacity
 			err := m.h.RollbackTo(target)
@@ -311,6 +334,7 @@ func runMachine(t *rapid.T, consecutive bool) *machine {
 				}
 			}
 			m.commits = m.commits[:k]
+			m.retainTruncate(target)
 			if target < m.height {
 				m.height = target
 				m.staleSeek = true
@@ -346,6 +370,7 @@ func runMachine(t *rapid.T, consecutive bool) *machine {
 				}
 			}
 			m.commits = m.commits[:k]
+			m.retainTruncate(target)
 			if target < m.height {
 				m.height = target
 				m.staleSeek = true
